@@ -417,7 +417,9 @@ Definition boot_l (e : bool) (c : cfg) (l : list (Z * relay)) (s : st) : st :=
   let s3 := set_slots (repeat slot_free 8) (set_delay 0 s2) in
   let s4 := set_chfl (if c_lateflags c then map (fun _ => 0) (c_relays c) else map r_chfl (c_relays c)) s3 in
   let s5 := set_obuf [] (set_regreq false (set_queue [] (set_conn false (set_reg false (set_gout 0 s4))))) in
-  let s6 := fold_left (restore_relay e c) l s5 in
+  (* the restore loop never evaluates running slots: the finish callback is registered by devconn_init, after it
+     (countdown(): `if (finish_cb) timer_cb(NULL)`) *)
+  let s6 := fold_left (restore_relay false c) l s5 in
   (* devconn_init: last_response = uptime_sec() (a clock reading), then it arms its watchdog (disarmed again by
      the offline harness) *)
   let s7 := fst (uptime_usec s6) in
@@ -469,7 +471,7 @@ Definition run_from (e : bool) (c : cfg) (s : st) (evs : list ev) : st := fold_l
 Definition run (e : bool) (c : cfg) (evs : list ev) : list out := rev (outs (run_from e c (start e c) evs)).
 
 (* the tree decides which variant the correspondence run uses (generated by pattern from countdown()) *)
-Definition CURRENT_EVALCMD : bool := EVAL_ON_COMMAND =? 2.
+Definition CURRENT_EVALCMD : bool := 2 <=? EVAL_ON_COMMAND.
 
 (* ---------- wire interface ---------- *)
 Fixpoint take_relays (n : nat) (l : list Z) : list relay * list Z :=
